@@ -40,6 +40,11 @@ let () =
         | "submit", [ep; bodylen; json; raws; vchain; tbsnone; tbspre; now; wait] ->
           run_submit sha (ep = "prechain") (n_of_int (int_of_string bodylen)) (json = "ok") (hexlist raws)
             (vchain_of vchain) (opt_hex tbsnone) (opt_hex tbspre) (z_of_string now) (n_of_int (wait_of wait))
+        | "submitdup", [ep; bodylen; json; raws; vchain; tbsnone; tbspre; now; wait; earlier] ->
+          (* deduplicated against an entry created through another chain: its issuers are `earlier` *)
+          run_submit_dedup sha (ep = "prechain") (n_of_int (int_of_string bodylen)) (json = "ok") (hexlist raws)
+            (vchain_of vchain) (opt_hex tbsnone) (opt_hex tbspre) (z_of_string now) (n_of_int (wait_of wait))
+            (hexlist earlier)
         | "upissuers", [issuers; known; stored; fetchok; uploadok] ->
           run_upissuers sha (zip5 (split_on ',' issuers) (split_on ',' known) (split_on ',' stored)
                                (split_on ',' fetchok) (split_on ',' uploadok))
